@@ -1,60 +1,79 @@
 #!/venv/bin/python
 """Run the registered checks against the seeded changes kept under /verif/seeded/<name>/ (patch.diff, demo.py, meta.json).
 
-For each: apply the patch to /repo, confirm the demonstration fails and the repository's tests still pass, run the property's check,
-undo the patch straight away.  Usage: seedtest.py [--tier quick] [name ...]
+For each: apply the patch, confirm the demonstration fails and the repository's tests still pass, run the property's check(s), undo the
+patch straight away.  By default the patch is applied to /repo itself; with --worktrees a,b,c the seeds are distributed over existing scratch
+worktrees of /repo (checks then run with VERIF_REPO pointing there and evidence/replays redirected to a scratch directory), in parallel.
+Usage: seedtest.py [--thorough] [--worktrees /tmp/wt-A,/tmp/wt-B] [--all-checks] [name ...]
 """
 from __future__ import annotations
-import json, os, subprocess, sys, time
+import json, os, subprocess, sys, time, tempfile, shutil
+from concurrent.futures import ThreadPoolExecutor
 
 V = os.path.dirname(os.path.dirname(os.path.abspath(__file__)))
-REPO = "/repo"
 
 
 def sh(cmd, **k):
     return subprocess.run(cmd, shell=True, capture_output=True, text=True, **k)
 
 
-def clean():
-    sh(f"git -C {REPO} checkout -- . && git -C {REPO} clean -fdq -- python")
+def one(n, repo, tier, scratch):
+    d = os.path.join(V, "seeded", n)
+    meta = json.load(open(os.path.join(d, "meta.json")))
+    props = meta.get("checks") or [meta["property"]]
+    env = dict(os.environ)
+    if repo != "/repo":
+        env.update(VERIF_REPO=repo, VERIF_EVIDENCE=os.path.join(scratch, "evidence"), VERIF_REPLAYS=os.path.join(scratch, "replays"))
+    try:
+        if sh(f"git -C {repo} status --porcelain --untracked-files=no").stdout.strip():
+            return n, "WORKTREE NOT CLEAN"
+        a = sh(f"git -C {repo} apply {d}/patch.diff")
+        if a.returncode != 0:
+            return n, "PATCH DOES NOT APPLY: " + a.stderr[:200]
+        demo = sh(f"/venv/bin/python {d}/demo.py {repo}", timeout=600)
+        tests = sh(f"cd {repo} && /venv/bin/python -m pytest -q -p no:cacheprovider 2>&1 | tail -1")
+        res = {}
+        for p in props:
+            t0 = time.time()
+            c = sh(f"cd {V} && ./check {p} --tier {tier}", timeout=7200, env=env)
+            first = next((l for l in c.stdout.splitlines() if "violation(s); first:" in l), "")[:400]
+            res[p] = dict(rc=c.returncode, violations=c.stdout.count("VIOLATION property="), wall=round(time.time() - t0), first=first,
+                          stderr=c.stderr[-400:] if c.returncode == 2 else "")
+        return n, dict(demo_fails=demo.returncode != 0, tests=tests.stdout.strip(), checks=res)
+    finally:
+        sh(f"git -C {repo} checkout -- . ")
 
 
 def main():
-    args = [a for a in sys.argv[1:] if not a.startswith("--")]
-    tier = "thorough" if "--thorough" in sys.argv else "quick"
-    names = args or sorted(os.listdir(os.path.join(V, "seeded")))
-    rows = []
-    assert sh(f"git -C {REPO} status --porcelain").stdout.strip() == "", "/repo is not clean"
-    for n in names:
-        d = os.path.join(V, "seeded", n)
-        if not os.path.exists(os.path.join(d, "patch.diff")):
-            continue
-        meta = json.load(open(os.path.join(d, "meta.json")))
-        props = meta["checks"] if "checks" in meta else [meta["property"]]
-        try:
-            a = sh(f"git -C {REPO} apply {d}/patch.diff")
-            if a.returncode != 0:
-                rows.append((n, "PATCH DOES NOT APPLY", a.stderr[:200]))
-                continue
-            demo = sh(f"/venv/bin/python {d}/demo.py {REPO}", timeout=300)
-            tests = sh(f"cd {REPO} && /venv/bin/python -m pytest -q -p no:cacheprovider 2>&1 | tail -1")
-            res = {}
-            for p in props:
-                t0 = time.time()
-                c = sh(f"cd {V} && ./check {p} --tier {tier}", timeout=3600)
-                kinds = sorted({l.split("replay=")[0] for l in c.stdout.splitlines() if l.startswith("VIOLATION")})
-                first = next((l for l in c.stdout.splitlines() if "violation(s); first:" in l), "")[:300]
-                res[p] = dict(rc=c.returncode, violations=c.stdout.count("VIOLATION property="), wall=round(time.time() - t0), first=first,
-                              stderr=c.stderr[-300:] if c.returncode == 2 else "")
-            rows.append((n, dict(demo_fails=demo.returncode != 0, tests=tests.stdout.strip(), checks=res)))
-        finally:
-            clean()
+    argv = sys.argv[1:]
+    tier = "thorough" if "--thorough" in argv else "quick"
+    wts = ["/repo"]
+    if "--worktrees" in argv:
+        wts = argv[argv.index("--worktrees") + 1].split(",")
+    names = [a for a in argv if not a.startswith("--") and a not in (",".join(wts),)]
+    names = names or sorted(x for x in os.listdir(os.path.join(V, "seeded")) if os.path.isdir(os.path.join(V, "seeded", x)))
+    names = [n for n in names if os.path.exists(os.path.join(V, "seeded", n, "patch.diff"))]
+    scratch = tempfile.mkdtemp(prefix="verif-seedtest-")
     out = {}
-    for n, *r in rows:
-        out[n] = r[0] if len(r) == 1 else r
-        print(n, json.dumps(out[n])[:700])
-    json.dump(out, open(os.path.join(V, "seeded", "_last_run.json"), "w"), indent=1)
-    # restore the evidence of the unchanged tree is the caller's job (re-run the checks)
+    try:
+        queue = list(names)
+
+        def worker(repo):
+            while queue:
+                n = queue.pop(0)
+                k, r = one(n, repo, tier, os.path.join(scratch, os.path.basename(repo)))
+                out[k] = r
+                print(k, json.dumps(r)[:600], flush=True)
+        with ThreadPoolExecutor(len(wts)) as ex:
+            list(ex.map(worker, wts))
+    finally:
+        shutil.rmtree(scratch, ignore_errors=True)
+    p = os.path.join(V, "seeded", "_last_run.json")
+    old = json.load(open(p)) if os.path.exists(p) else {}
+    old.update(out)
+    json.dump(old, open(p, "w"), indent=1, sort_keys=True)
+    det = sum(1 for r in out.values() if isinstance(r, dict) and any(c["rc"] == 1 for c in r["checks"].values()))
+    print(f"detected {det} of {len(out)}")
 
 
 if __name__ == "__main__":
